@@ -6,11 +6,19 @@ Driver glue for C18. Strings travel as lowercase hex of their UTF-8 bytes and ar
 
 * `T | P  <artifacts>  <queries>` — `T`: versions are integers (`Ord`), `resolve` and `partial_resolve`; `P`: versions are
   pairs `a.b` under the product order, `partial_resolve` only.
-  artifact `<version>/<l|d>/<x|a>/<n|0|1>` (os linux/darwin, arch amd64/arm64, metadata None/Some 0/Some 1), url = position;
-  query `<l|d>/<x|a>/<versions joined by + | * | ~>/<* | n | 0 | 1>` (accepted versions: the listed ones / any / none;
-  metadata: any / exactly that). Observation `r=<i|none>,…;p=<i|none>,…;rt=1` (`r=-` for `P`), one answer per query.
+  artifact `<version>/<l|d>/<x|a>/<n|k>` (os linux/darwin, arch amd64/arm64, metadata None/Some k, k ≤ 255), url = position;
+  query `[N@]<l|d>/<x|a>/<versions joined by + | * | ~ | >=v | <v | lo_hi>/<* | n | k>` (accepted versions: the listed ones /
+  any / none / at least v / below v / between lo and hi inclusive, by the version order; metadata: any / exactly that /
+  `v` = any, asked through a type that implements only `VersionRequirement` (the library's blanket impl);
+  the prefix `N@` = the query is asked when only the first N artifacts have been pushed). Observation `r=<i|none>,…;p=<i|none>,…;rt=1` (`r=-` for `P`), one answer per query.
 * `F  <artifacts>  -` — artifact `<int version>/<os>/<arch>/<meta>/<url hex>/<checksum string hex>`; observation
   `rt=1;enc=<os hex>|<arch hex>|<url hex>|<checksum hex>|<version>|<meta>,…` (what the rendered TOML holds per artifact).
+* `R  <artifacts>  <vshape>:<mshape>` — artifact `<text hex>/<l|d>/<x|a>/<text hex>`: the harness derives a version of type `vshape` (`int`,
+  `str`, `pair` = tuple struct, `tbl` = struct, a TOML table) and a metadata value of type `mshape` (plain values, arrays, tables,
+  optional tables, arrays of tables, maps of tables, nested) from the two texts, renders the inventory with `Display`/`to_string`,
+  parses it back with `FromStr` and compares field by field. The clause judged is "rendering an inventory to TOML and parsing it back
+  gives equal artifacts": observation `rt=1`, anything else (`rt=0:<field>:<index>`, `rt=parse-error`, `PANIC`) is a failure. The typed
+  values are not modelled (the record-level theorem `inventory_roundtrip_partial` is generic in the codecs); the model observation is `rt=1`.
 * `K  -  -  <d2|s32|any>  <string hex>` (the two `-` keep the list positions 1, 2 that `./check` shrinks empty) — observation `ok:<name hex>:<value hex>:<rendered hex>` or `err:<kind>`.
 -/
 namespace CnbVerif.DriverC18
@@ -22,7 +30,11 @@ def hexOf (s : List Char) : String := hexEncode (unchars s)
 
 def parseOs : String → Option Os | "l" => some .linux | "d" => some .darwin | _ => none
 def parseArch : String → Option Arch | "x" => some .amd64 | "a" => some .arm64 | _ => none
-def parseMeta : String → Option (Option Nat) | "n" => some none | "0" => some (some 0) | "1" => some (some 1) | _ => none
+def parseMeta : String → Option (Option Nat)
+  | "n" => some none
+  | s => match s.toNat? with
+    | some k => if k ≤ 255 then some (some k) else none
+    | none => none
 
 def parsePair (s : String) : Option (Nat × Nat) :=
   match s.splitOn "." with
@@ -35,6 +47,7 @@ def anyDigest : Digest := ⟨fun _ => true, fun _ => true⟩
 def digestOf : String → Option Digest
   | "d2" => some ⟨fun n => n == "d2".toList, fun l => l == 2⟩
   | "s32" => some ⟨fun n => n == "sha256".toList, fun l => l == 32⟩
+  | "s64" => some ⟨fun n => n == "sha512".toList, fun l => l == 64⟩
   | "any" => some anyDigest
   | _ => none
 
@@ -53,22 +66,46 @@ def parseArtifacts {V : Type} (pv : String → Option V) (s : String) : Option (
   allSome ((List.range toks.length).zip toks |>.map (fun p => parseArtifact pv p.1 p.2))
 
 structure Query (V : Type) where
+  /-- asked when only the first `upto` artifacts have been pushed (`none` = all) -/
+  upto : Option Nat
   os : Os
   arch : Arch
   req : Req V MetaT
 
-def parseQuery {V : Type} [DecidableEq V] (pv : String → Option V) (s : String) : Option (Query V) :=
+/-- the inventory a query sees -/
+def Query.sees {V : Type} (q : Query V) (inv : List (Artifact V MetaT)) : List (Artifact V MetaT) :=
+  match q.upto with
+  | none => inv
+  | some n => inv.take n
+
+/-- `le` = the version type's `≤` (only the requirement forms `>=v`, `<v`, `lo_hi` use it) -/
+def parseQueryBody {V : Type} [DecidableEq V] (pv : String → Option V) (le : V → V → Bool) (upto : Option Nat) (s : String) :
+    Option (Query V) :=
   match s.splitOn "/" with
   | [os, arch, vs, m] =>
     let vreq : Option (V → Bool) :=
       if vs = "*" then some (fun _ => true)
       else if vs = "~" then some (fun _ => false)
-      else (allSome ((vs.splitOn "+").map pv)).map (fun l v => l.contains v)
+      else if vs.startsWith ">=" then (pv (vs.drop 2).toString).map (fun b v => le b v)
+      else if vs.startsWith "<" then (pv (vs.drop 1).toString).map (fun b v => le v b && v != b)
+      else match vs.splitOn "_" with
+        | [lo, hi] => match pv lo, pv hi with
+          | some lo, some hi => some (fun v => le lo v && le v hi)
+          | _, _ => none
+        | _ => (allSome ((vs.splitOn "+").map pv)).map (fun l v => l.contains v)
     let mreq : Option (MetaT → Bool) :=
-      if m = "*" then some (fun _ => true) else (parseMeta m).map (fun want got => got == want)
+      if m = "*" ∨ m = "v" then some (fun _ => true) else (parseMeta m).map (fun want got => got == want)
     match parseOs os, parseArch arch, vreq, mreq with
-    | some os, some arch, some vr, some mr => some ⟨os, arch, ⟨vr, mr⟩⟩
+    | some os, some arch, some vr, some mr => some ⟨upto, os, arch, ⟨vr, mr⟩⟩
     | _, _, _, _ => none
+  | _ => none
+
+def parseQuery {V : Type} [DecidableEq V] (pv : String → Option V) (le : V → V → Bool) (s : String) : Option (Query V) :=
+  match s.splitOn "@" with
+  | [body] => parseQueryBody pv le none body
+  | [n, body] => match n.toNat? with
+    | some n => parseQueryBody pv le (some n) body
+    | none => none
   | _ => none
 
 def renderRes {V : Type} (r : Option (Artifact V MetaT)) : String :=
@@ -87,21 +124,21 @@ def judge {V : Type} [DecidableEq V] (lt : V → V → Bool) (inv : List (Artifa
   if toks.length ≠ qs.length then some (what ++ ": " ++ toString toks.length ++ " answers for " ++ toString qs.length ++ " queries")
   else
     (qs.zip toks).findSome? (fun (q, t) =>
-      match parseRes inv t with
+      match parseRes (q.sees inv) t with
       | none => some (what ++ ": unparsable answer " ++ t)
       | some res =>
-        if decide (Acceptable lt inv q.os q.arch q.req res) then none
+        if decide (Acceptable lt (q.sees inv) q.os q.arch q.req res) then none
         else some (what ++ " returned " ++ t ++ " which is not a maximal match (or nothing although something matches)"))
 
 def kvs (key : String) (s : String) : Option String :=
   if s.startsWith (key ++ "=") then some ((s.drop (key.length + 1)).toString) else none
 
-def handleResolve {V : Type} [DecidableEq V] (total : Bool) (pv : String → Option V) (cmp : V → V → Ordering)
+def handleResolve {V : Type} [DecidableEq V] (total : Bool) (pv : String → Option V) (le : V → V → Bool) (cmp : V → V → Ordering)
     (pcmp : V → V → Option Ordering) (arts queries obs : String) : String × String :=
-  match parseArtifacts pv arts, allSome ((splitList queries ",").map (parseQuery pv)) with
+  match parseArtifacts pv arts, allSome ((splitList queries ",").map (parseQuery pv le)) with
   | some inv, some qs =>
-    let r := if total then joinWith "," (qs.map (fun q => renderRes (resolve cmp inv q.os q.arch q.req))) else "-"
-    let p := joinWith "," (qs.map (fun q => renderRes (partialResolve pcmp inv q.os q.arch q.req)))
+    let r := if total then joinWith "," (qs.map (fun q => renderRes (resolve cmp (q.sees inv) q.os q.arch q.req))) else "-"
+    let p := joinWith "," (qs.map (fun q => renderRes (partialResolve pcmp (q.sees inv) q.os q.arch q.req)))
     let model := "r=" ++ r ++ ";p=" ++ p ++ ";rt=1"
     let verdict :=
       match obs.splitOn ";" with
@@ -143,12 +180,30 @@ def errName : ChecksumErr → String
   | .missingPrefix => "missing-prefix" | .incompatiblePrefix => "incompatible-prefix"
   | .invalidValue => "invalid-value" | .invalidLength => "invalid-length"
 
+def vShapes : List String := ["int", "str", "pair", "tbl"]
+def mShapes : List String := ["none-unit", "opt-int", "int", "float", "bool", "string", "enum", "array", "string-array", "tuple", "newtype", "struct",
+  "map", "opt-struct", "opt-map", "opt-fields", "array-of-structs", "map-of-structs", "nested"]
+
+/-- an artifact of family `R`: two texts (hex) around os and arch -/
+def validArtifactR (s : String) : Bool :=
+  match s.splitOn "/" with
+  | [v, os, arch, m] => (hexDecode v).isSome && (parseOs os).isSome && (parseArch arch).isSome && (hexDecode m).isSome
+  | _ => false
+
 def handle (fields : List String) (obs : String) : String × String :=
   match fields with
+  | ["R", arts, shape] =>
+    match shape.splitOn ":" with
+    | [vs, ms] =>
+      if vShapes.contains vs && mShapes.contains ms && (splitList arts ",").all validArtifactR then
+        ("rt=1", if obs = "rt=1" then "ok"
+                 else "fail:rendering the inventory to TOML and parsing it back does not give equal artifacts (" ++ obs ++ ")")
+      else ("bad-op", "bad-op")
+    | _ => ("bad-op", "bad-op")
   | ["T", arts, queries] =>
-    handleResolve (V := Nat) true String.toNat? natCmp (fun a b => some (natCmp a b)) arts queries obs
+    handleResolve (V := Nat) true String.toNat? (fun a b => decide (a ≤ b)) natCmp (fun a b => some (natCmp a b)) arts queries obs
   | ["P", arts, queries] =>
-    handleResolve (V := Nat × Nat) false parsePair (fun _ _ => .eq) pairPCmp arts queries obs
+    handleResolve (V := Nat × Nat) false parsePair (fun a b => decide (a.1 ≤ b.1 ∧ a.2 ≤ b.2)) (fun _ _ => .eq) pairPCmp arts queries obs
   | ["F", arts, "-"] =>
     match allSome ((splitList arts ",").map parseArtifactF) with
     | some inv =>
